@@ -1,4 +1,5 @@
-package chainworld
+// Package chainsmoke is a smoke test of the CHAIN skeleton (not a property check; not in the manifest).
+package chainsmoke
 
 import (
 	"math/big"
@@ -7,6 +8,7 @@ import (
 	"verifsim/kit"
 	"verifsim/simdisk"
 	"verifsim/worlds/chainkit"
+	. "verifsim/worlds/chainworld"
 
 	"github.com/youchainhq/go-youchain/core/types"
 )
